@@ -38,7 +38,8 @@ def cases(draw, max_taxa, max_trees, ultrametric=False):
     return {"sample": s, "use_w": draw(st.booleans()),
             "thr_kind": draw(st.sampled_from(["exact", "mid", "float", "default", "low", "one"])),
             "thr_sel": draw(st.integers(0, 50)), "thr_f": draw(st.floats(min_value=0.02, max_value=1.0, allow_nan=False)),
-            "route": draw(st.sampled_from(["treearray", "treelist", "splitdist"])), "summaries_first": draw(st.booleans()), "pooled": draw(st.integers(0, 3)) == 0,
+            "route": draw(st.sampled_from(["treearray", "treelist", "splitdist"])), "summaries_first": draw(st.booleans()),
+            "collapse_prestate": draw(st.one_of(st.none(), st.tuples(st.integers(0, 30), st.integers(0, 30)))), "pooled": draw(st.integers(0, 3)) == 0,
             "target": {"kind": draw(st.sampled_from(["member", "neighbour", "indep"])), "sel": draw(st.integers(0, 50)),
                        "nni": [draw(st.integers(0, 30)), draw(st.integers(0, 3)), draw(st.integers(0, 3))],
                        "spec": draw(shapes.shapes(min_leaves=s["n"], max_leaves=s["n"], max_arity=3))},
@@ -302,6 +303,19 @@ def check_case(ctx, case):
     # ---- clause 4: collapsing weakly supported edges -----------------------------------------------------------
     if trt.all_lengths_present():
         ctarget = shapes.build_tree(samples.spec_of(trt), ns, taxa, is_rooted=rooted_flag)
+        pre = case.get("collapse_prestate")
+        if pre:
+            # the tree to collapse has a past: it was encoded, then two leaves exchanged their taxa (an edit that
+            # refreshes nothing); the call must judge the splits the tree has NOW
+            ctarget.encode_bipartitions()
+            lvs = ctarget.leaf_nodes()
+            la, lb = lvs[pre[0] % len(lvs)], lvs[pre[1] % len(lvs)]
+            if la is not lb:
+                la.taxon, lb.taxon = lb.taxon, la.taxon
+                trt, _pr = snapshot(ctarget)
+                if _pr:
+                    raise runner.HarnessError("taxon swap broke the tree: %r" % (_pr,))
+                ctx.cls("collapse:target_encoded_then_taxa_swapped")
         before_paths = dict((trt.taxon[i], trt.dist_to_root(i)) for i in trt.leaves())
         ckw = {} if thr is None else {"min_freq": thr}
         ok_call = True
